@@ -42,6 +42,8 @@ type c04Run struct {
 	Warm    string `json:"warm"`
 	WarmVal int    `json:"warmVal"`
 	MaxVal  int    `json:"maxVal"`
+	// the file does not exist when the race starts: every process opens (creates) it as its first steps
+	Create bool `json:"create"`
 }
 
 const c04NameLen = 4080 // record size 4096: three records per 16 KiB page
@@ -112,6 +114,8 @@ type c04World struct {
 	run    *c04Run
 	path   string
 	hdrLen uint32
+	hdr    []byte // the header every process of this build and week writes
+	openErr map[string]string
 	slots  []uint32 // slot (1-based) -> offset
 	ends   []uint32
 	files  map[string]*file
@@ -136,10 +140,43 @@ func (w *c04World) slotOf(off uint32) int {
 	return -2
 }
 
+// projectShort is the projection of a file that is not yet one page long.
+func (w *c04World) projectShort(size int) rt.M {
+	recs := []rt.M{}
+	for i := 0; i < w.run.MaxSlots; i++ {
+		recs = append(recs, rt.M{"name": "none", "len": false, "next": 0, "val": 0})
+	}
+	alive, done := rt.M{}, rt.M{}
+	for _, t := range w.sched.Tasks {
+		alive[t.Name] = t.State != rt.Killed
+		done[t.Name] = t.State == rt.Done
+	}
+	begun := rt.M{}
+	for _, n := range []string{"n1", "n2", "n3", "n4", "n6", "n7"} {
+		begun[n] = w.begun[n]
+	}
+	return rt.M{"size": size, "limit": 0, "head": rt.M{"b1": 0, "b2": 0, "b3": 0}, "rec": recs, "alive": alive, "finished": done,
+		"begun": begun, "problems": []string{}}
+}
+
 func (w *c04World) project() rt.M {
 	data, err := os.ReadFile(w.path)
 	if err != nil {
+		if os.IsNotExist(err) && w.run.Create {
+			return w.projectShort(-2)
+		}
 		return rt.M{"readerr": err.Error()}
+	}
+	if len(data) < rt.V1Page {
+		// during creation: -1 = empty, 0 = exactly the header, -3 = anything else
+		size := -3
+		switch {
+		case len(data) == 0:
+			size = -1
+		case string(data) == string(w.hdr):
+			size = 0
+		}
+		return w.projectShort(size)
 	}
 	dec := rt.DecodeV1(data)
 	limit := binary.LittleEndian.Uint32(data[w.hdrLen:])
@@ -237,7 +274,7 @@ func c04One(t *testing.T, run *c04Run) {
 		w0.release()
 	}()
 	bi := &debug.BuildInfo{GoVersion: "go1.23.0", Path: "example.com/verif/c04", Main: debug.Module{Path: "example.com/verif", Version: "v1.0.0"}}
-	w := &c04World{run: run, files: map[string]*file{}, ctrs: map[string][]*Counter{}, begun: map[string]int{}}
+	w := &c04World{run: run, files: map[string]*file{}, ctrs: map[string][]*Counter{}, begun: map[string]int{}, openErr: map[string]string{}}
 	// the file is created and pre-filled by a setup process
 	f0 := &file{buildInfo: bi}
 	f0.rotate1()
@@ -267,7 +304,11 @@ func c04One(t *testing.T, run *c04Run) {
 		v.Store(^uint64(0) - uint64(run.MaxVal-run.WarmVal))
 		w.begun[run.Warm] = run.WarmVal
 	}
+	w.hdr, _ = mappedHeader(f0.current.Raw().meta)
 	f0.current.Raw().close()
+	if run.Create {
+		os.Remove(w.path)
+	}
 	s := rt.NewSched()
 	defer s.Close()
 	w.sched = s
@@ -276,7 +317,7 @@ func c04One(t *testing.T, run *c04Run) {
 		// visible: accesses to the shared file (mappedFile methods, the file
 		// calls they make, and Counter.add); everything else is process-local
 		parts := strings.Split(fn, "<")
-		if parts[0] == "(*Counter).add" {
+		if parts[0] == "(*Counter).add" || parts[0] == "openMapped" {
 			return false
 		}
 		for _, p := range parts {
@@ -289,9 +330,11 @@ func c04One(t *testing.T, run *c04Run) {
 	for _, p := range run.Procs {
 		p := p
 		fp := &file{buildInfo: bi}
-		fp.rotate1() // every process has the file open before the race starts
-		if fp.err != nil {
-			t.Fatalf("setup: %v", fp.err)
+		if !run.Create {
+			fp.rotate1() // every process has the file open before the race starts
+			if fp.err != nil {
+				t.Fatalf("setup: %v", fp.err)
+			}
 		}
 		w.files[p.Name] = fp
 		names := p.Ctrs
@@ -304,6 +347,12 @@ func c04One(t *testing.T, run *c04Run) {
 		}
 		w.ctrs[p.Name] = cs
 		s.Go(p.Name, func() {
+			if run.Create {
+				fp.rotate1() // opens, and if need be sets up, the file: part of the race
+				if fp.err != nil {
+					w.openErr[p.Name] = fp.err.Error()
+				}
+			}
 			for i, c := range cs {
 				w.begun[names[i]]++
 				c.Add(1)
@@ -468,6 +517,7 @@ func c04One(t *testing.T, run *c04Run) {
 		}
 	}
 	fin["pending"] = pend
+	fin["openErr"] = w.openErr
 	emit("result", fin)
 	for _, fp := range w.files {
 		if m := fp.current.Raw(); m != nil {
